@@ -33,6 +33,7 @@ DOC = {
         "C03-R1": "fitted_data = data - residual with the un-weighted residual (weight division dominates it); weighted_residual is the residual before division; residual = weighted / weight; residual, matrix and clp of a dataset are taken under that dataset's own label",
         "C03-R2": "no `x in y` / `x not in y` with y of type str and x a label variable in glotaran/optimization; no orientation decision by comparing .shape",
         "C03-R3": "keys of the group definitions are injective in the label lists (no joining of variable-length labels with an empty separator)",
+        "C03-R4": "data, indices, group labels, weights, matrices and scales of one aligned index are stacked over the same datasets in one order, and the linked result slicer cuts residual blocks by the cumulative model-axis sizes of exactly the preceding datasets of that order; results are reported on the dataset's own global axis",
         "C03-R5": "named-axis layout: flattened data/weight are (M,G).T.flatten(); kron(global, model) rows are flat(G,M) like the flattened data; the full-model residual is reshaped as (G,M) then transposed, the clps as (K,C); every DataArray's array axes equal its dims/coords order; weight columns/data columns are selected by the global position",
         "C03-R6": "retrieve_clps writes reduced clps to the positions of their own labels in the full label list, leaves removed positions at the zero initialiser and sets relation targets to parameter x source clp",
     },
@@ -519,9 +520,16 @@ def r6(ctx) -> None:
                "relations are evaluated after all reduced clps were copied (they read the source clp)")
 
 
+def r4(ctx) -> None:
+    """Stacking-order agreement of the linked providers (shared with C09-R4)."""
+    from glint.rules.c09 import r4 as stacking
+
+    stacking(ctx, rule="C03-R4")
+
+
 def check(ctx) -> None:
     for g in check.groups:
         g(ctx)
 
 
-check.groups = [r1, r2, r3, r5, r6]
+check.groups = [r1, r2, r3, r4, r5, r6]
